@@ -5,12 +5,6 @@ set -e
 cd "$(dirname "$0")/../coq"
 exec 9>/verif/coq/.build.lock
 flock 9
-# AllOps.v is regenerated from the *_ops.v files present
-{ echo "(* generated by tools/build_coq.sh *)"; echo "From Coq Require Import List ZArith Qcanon."; echo "From QV.Exec Require Import Base."
-  for f in $(ls theories/Exec/*_ops.v | sort); do b=$(basename $f .v); echo "From QV.Exec Require $b."; done
-  echo "Definition ops : optable := nil"; for f in $(ls theories/Exec/*_ops.v | sort); do b=$(basename $f .v); echo "  ++ $b.$b"; done; echo "."
-  echo "Definition run (name : string) (zs : list Z) (qs : list Qc) : res := run_table ops name zs qs."; } > theories/Exec/AllOps.v.new
-if ! cmp -s theories/Exec/AllOps.v.new theories/Exec/AllOps.v 2>/dev/null; then mv theories/Exec/AllOps.v.new theories/Exec/AllOps.v; else rm theories/Exec/AllOps.v.new; fi
 { echo "-Q theories QV"; echo "-arg -w -arg -notation-overridden,-deprecated-hint-without-locality,-deprecated-instance-without-locality,-ambiguous-paths"; find theories -name '*.v' | sort; } > _CoqProject.new
 if ! cmp -s _CoqProject.new _CoqProject 2>/dev/null; then mv _CoqProject.new _CoqProject; coq_makefile -f _CoqProject -o Makefile >/dev/null; else rm _CoqProject.new; fi
 timeout ${COQ_BUILD_TIMEOUT:-3000} make -j${COQ_JOBS:-16} "$@"
